@@ -16,7 +16,7 @@ import math
 
 from ..frontend import AnalysisBroken
 from ..model import desugared, qt, loc_str, walk, inner
-from ..expr import canon, pretty, children, strip, callee_info, subterms, CALL_KINDS
+from ..expr import canon, pretty, children, strip, callee_info, subterms, CALL_KINDS, ref_decl
 from ..cfg import cfg_of
 from ..intervals import eval_int, eval_cond, env_at, env_at_node, refine, TOP, INF
 from .common import CQ, short, calls_to, vars_in, var_write_nodes
@@ -51,6 +51,7 @@ def run(ctx, rep, tier):
     rep.rule("G18b", "no assert()-based validation of arguments in public Circuit mutators", min_instances=1)
     rep.rule("P2", "params.check() first in the algorithm entry points", min_instances=3)
     rep.rule("VB", "a throwing validation never reads a member the same function has already overwritten (rejected calls leave the object unchanged)", 0)
+    rep.rule("VP", "no parameter bound is tested through a 32-bit product that can wrap (expected count 0)", 0)
     rep.rule("FP", "the parameter check bounds each overlap by the window size of its own family", 3)
     rep.rule("T4", "ColoquinteParameters(e) passes its own check for every effort e in 1..9", min_instances=9)
     check_b1(ctx, rep)
@@ -62,6 +63,24 @@ def run(ctx, rep, tier):
     c19_defaults.run(ctx, rep)
     from .c07 import check_vb
     check_vb(ctx, prog, rep, False, "VB")
+    # VP: a bound tested through a 32-bit product of two parameters wraps for large values and lets them through
+    nvp = 0
+    for f_ in prog.all_funcs(with_lambdas=False):
+        if f_.body is None or f_.name != "check" or not (f_.cls or "").endswith("Parameters"):
+            continue
+        nvp += 1
+        for x in walk(f_.body):
+            if x.get("kind") == "BinaryOperator" and x.get("opcode") == "*" and \
+                    ((x.get("type") or {}).get("qualType") or "").replace("const ", "") in ("int", "unsigned int") and \
+                    all(canon(c_)[0] != "lit" for c_ in children(x)):
+                rep.violation("VP", x, f_, "%s validates through the 32-bit product %s" % (f_.short, pretty(canon(x))[:50]),
+                              "for large parameter values the product overflows (undefined; in practice it wraps to a small or negative number) and the "
+                              "bound accepts them: the stage then runs with a parameter set that must be refused",
+                              key="%s|validation through a wrapping product" % f_.short)
+    if nvp == 0:
+        rep.unknown("VP", None, None, "parameter checks", "no *Parameters::check function found")
+    elif not any(i["rule"] == "VP" for i in rep.instances):
+        rep.holds("VP", "src/parameters.cpp", None, "no bound of the %d parameter checks is tested through a 32-bit product of two parameters" % nvp)
     from .common import check_family_pairing
     cf = [f_ for f_ in prog.all_funcs(with_lambdas=False) if f_.cls == CQ + "RoughLegalizationParameters" or
           (f_.unit.name.endswith("parameters.cpp") and f_.cls is None)]
@@ -450,6 +469,20 @@ def check_limits_validation(ctx, rep, f):
             last_n = hi.get(("N",), 0)
             done = [n for n in g.nodes if n.kind == "edge" and n.val is False and n.ast is strip(list(inner(x))[2])]
             covered = (first, last_n, last_c, done[0] if done else None, x)
+    sorted_by_algo = False
+    if covered is None:
+        # std::is_sorted over the whole vector (possibly inside a validation helper) checks every adjacent pair
+        want = ("call", "is_sorted", ("none",), ("call", "begin", lv), ("call", "end", lv))
+        ws0 = ctx.eff.summary(f)["writes"].get(CQ + "Circuit::netLimits_", [])
+        for _x, u in ws0:
+            for gc, val, _a, _b in (ctx.guards(f, u.node) or []):
+                neg = False
+                while gc[0] == "un" and gc[1] == "!":
+                    gc, neg = gc[2], not neg
+                if gc[:2] == want[:2] and gc[-2:] == want[-2:] and (val is not neg):
+                    sorted_by_algo = True
+        if sorted_by_algo:
+            covered = (0, 1.0, -2, "algo", f.decl)
     if covered is None:
         rep.violation("G18", f.decl, f, "net limits are not validated pairwise", "no loop that throws unless limits[k] <= limits[k+1]",
                       key="Circuit::setNets|limits monotonicity not validated")
@@ -464,7 +497,7 @@ def check_limits_validation(ctx, rep, f):
     # front == 0, back == pins, and everything before the first write to netLimits_
     s = ctx.eff.summary(f)
     ws = s["writes"].get(CQ + "Circuit::netLimits_", [])
-    okdom = done is not None and all(g.dominates(done, g.node_for(u.node)) for _x, u in ws)
+    okdom = done == "algo" or (done is not None and all(g.dominates(done, g.node_for(u.node)) for _x, u in ws))
     ends = {"front": False, "back": False}
     vparams = {p.get("id") for p in f.params if "vector" in qt(p) and p.get("id") != lv[1]}
     for _x, u in ws:
@@ -473,7 +506,7 @@ def check_limits_validation(ctx, rep, f):
                 continue
             if not ((gc[1] == "!=" and val is False) or (gc[1] == "==" and val is True)):
                 continue
-            sides = (gc[2], gc[3])
+            sides = (expand_locals(ctx, f, gc[2]), expand_locals(ctx, f, gc[3]))
             for a, b in (sides, sides[::-1]):
                 if a == ("call", "front", lv) and b[0] == "lit" and str(b[1]).rstrip("uUlL") == "0":
                     ends["front"] = True
@@ -535,6 +568,7 @@ def validated_loops(ctx, f, cells_param, _depth=0):
     g = cfg_of(f)
     out = []
     pid = cells_param.get("id")
+    out += _algorithm_validations(ctx, f, g, pid, cells_param.get("name"))
     for x in walk(f.body):
         k = x.get("kind")
         if k in ("CXXMemberCallExpr", "CallExpr") and _depth < 2:
@@ -597,6 +631,72 @@ def validated_loops(ctx, f, cells_param, _depth=0):
                     alts.append(("var", y.get("id"), y.get("name")))
             if _bounded_fallthrough(ctx, f, g, incn, tuple(alts)):
                 out.append(falses[0])
+    return out
+
+
+def _algorithm_validations(ctx, f, g, pid, pname):
+    """Edges of f's CFG that are taken only when every element of the vector parameter pid lies in [0, nbCells()): the false edge
+    of `any_of(v.begin(), v.end(), [](int c) { return c < 0 || c >= nbCells(); })` (directly as a condition, or through a bool local
+    initialised with it), the true edge of the corresponding none_of / all_of with the negated predicate."""
+    out = []
+    vc = ("var", pid, pname)
+    nb = ("call", CQ + "Circuit::nbCells", ("this",))
+    for n in g.nodes:
+        if n.kind != "edge" or n.ast is None or not isinstance(n.val, bool):
+            continue
+        e = strip(n.ast, casts=True)
+        neg = False
+        while e.get("kind") == "UnaryOperator" and e.get("opcode") == "!":
+            e, neg = strip(children(e)[0], casts=True), not neg
+        if e.get("kind") == "DeclRefExpr":
+            d = ref_decl(e) or {}
+            init = children(d) if d.get("kind") == "VarDecl" and "inner" in d else []
+            e = strip(init[-1], casts=True) if init else e
+            while e.get("kind") in ("ExprWithCleanups", "MaterializeTemporaryExpr") and children(e):
+                e = strip(children(e)[0], casts=True)
+        if e.get("kind") != "CallExpr":
+            continue
+        ci = callee_info(e)
+        if not ci or ci["name"] not in ("any_of", "none_of", "all_of") or len(ci["args"]) != 3:
+            continue
+        if canon(ci["args"][0]) != ("call", "begin", vc) or canon(ci["args"][1]) != ("call", "end", vc):
+            continue
+        lam = strip(ci["args"][2], casts=True)
+        while lam.get("kind") in ("CXXConstructExpr", "MaterializeTemporaryExpr", "CXXBindTemporaryExpr") and children(lam):
+            lam = strip(children(lam)[0], casts=True)
+        lf = lam.get("_lam") if lam.get("kind") == "LambdaExpr" else None
+        rets = [r for r in walk(lf.body) if r.get("kind") == "ReturnStmt" and children(r)] if lf is not None and lf.body is not None else []
+        if lf is None or len(lf.params) != 1 or len(rets) != 1:
+            continue
+        ev = ("var", lf.params[0].get("id"), lf.params[0].get("name"))
+        pc = canon(children(rets[0])[0])
+        atoms = []
+
+        def flat(t, op):
+            if t[0] == "bin" and t[1] == op:
+                flat(t[2], op); flat(t[3], op)
+            else:
+                atoms.append(t)
+        # "bad" predicate: c < 0 || c >= N ; "good" predicate: c >= 0 && c < N
+        value_when_all_valid = None
+        flat(pc, "||")
+        bad = any(t in (("bin", "<", ev, ("lit", "0")), ("bin", ">", ("lit", "0"), ev)) for t in atoms) and \
+            any(t in (("bin", ">=", ev, nb), ("bin", "<=", nb, ev)) for t in atoms)
+        atoms2 = atoms[:]
+        del atoms[:]
+        flat(pc, "&&")
+        good = any(t in (("bin", ">=", ev, ("lit", "0")), ("bin", "<=", ("lit", "0"), ev)) for t in atoms) and \
+            any(t in (("bin", "<", ev, nb), ("bin", ">", nb, ev)) for t in atoms)
+        if bad and len(atoms2) == 2:
+            value_when_all_valid = {"any_of": False, "none_of": True}.get(ci["name"])
+        elif good and len(atoms) == 2:
+            value_when_all_valid = {"all_of": True}.get(ci["name"])
+        if value_when_all_valid is None:
+            continue
+        if neg:
+            value_when_all_valid = not value_when_all_valid
+        if n.val is value_when_all_valid:
+            out.append(n)
     return out
 
 
